@@ -189,6 +189,15 @@ def ref_product(model, P):
     return out
 
 
+def ref_product_flushed(model, P):
+    """ref_product on a private copy extended by one extra row (dropped afterwards): the conditioning
+    values handed to the conditional distributions are then a NEW array of another size, so the
+    reference cannot coincide with whatever an earlier call left behind in the objects"""
+    P = np.array(P, dtype=float, order="C", copy=True)
+    ext = np.vstack([P, P[:1] * 1.37 + 0.011])
+    return ref_product(model, ext)[:-1]
+
+
 def pdf_task(c):
     model = get_model(c)
     pc = Pieces(model)
@@ -430,10 +439,11 @@ def _evaluate(model, fresh, pts, v, with_cdf):
         mp1 = float(np.asarray(model.marginal_pdf(np.array([v[0]]), 1)).reshape(-1)[0])
         mp2 = np.asarray(model.marginal_pdf(np.array(v), 1), dtype=float).reshape(-1)
         cd = float(np.asarray(model.cdf([list(P[0])])).reshape(-1)[0]) if with_cdf else None
-        vals.append(float(np.asarray(model.pdf([float(t) for t in P[0]])).reshape(-1)[0]))  # single point again (last)
-        # reference: factorised product from the model's CURRENT objects (arrays, declared structure)
-        ref = ref_product(model, P)
+        # reference: factorised product from the model's CURRENT objects (arrays, declared structure);
+        # computed BEFORE the last call so that the single-point call is the last thing the objects saw
+        ref = ref_product_flushed(model, P)
         refs = [ref[0], ref[1]] + list(ref) + [ref[0]]
+        vals.append(float(np.asarray(model.pdf([float(t) for t in P[0]])).reshape(-1)[0]))  # single point again (last)
         # a freshly constructed model with the same current parameters
         fv = [float(np.asarray(fresh.pdf([float(t) for t in P[0]])).reshape(-1)[0]),
               float(np.asarray(fresh.pdf(np.array(P[1]))).reshape(-1)[0])]
@@ -452,6 +462,70 @@ def _evaluate(model, fresh, pts, v, with_cdf):
                              fresh=Qc(fc, 1e9, -BIG, BIG)))
     return dict(pdfrel=[rel15(a, float(b)) for a, b in zip(vals, refs)],
                 freshrel=[rel15(a, float(b)) for a, b in zip(vals, fv)], ints=ints), float(ref[0])
+
+
+def refill_history_task(c):
+    """evaluate with an ndarray of points -> overwrite the SAME array object in place with other points
+    (x[:] = ..., only the conditioning column x[:, 0] = ..., np.copyto) -> evaluate again with that same
+    object.  Every value must be the factorised product for the CURRENT content and the value of a
+    fresh model; C- and F-ordered buffers, single-point rows that are views of the buffer."""
+    vc = import_virocon()
+    desc = M.describe(np.random.default_rng(c["seed"]), c["n_dim"], c["cond"], c["families"], c["sh"],
+                      spec=M.SPEC_SMOOTH)
+    model = M.from_description(vc, desc)
+    fresh = M.from_description(vc, desc)
+    pcs = Pieces(M.from_description(vc, desc))
+    A = np.array([point_at(pcs, lv) for lv in c["levels"]], dtype=float)
+    B = np.array([point_at(pcs, lv) for lv in c["levels_b"]], dtype=float)
+    X = np.array(A, order=c["order"])                  # the caller's buffer
+    xm = np.array([A[0][1], A[1][1]])                  # buffer of marginal_pdf arguments
+    out = []
+
+    def phase(first_last):
+        with warnings.catch_warnings():
+            warnings.simplefilter("ignore")
+            vals = [float(t) for t in np.asarray(model.pdf(X)).reshape(-1)]             # the buffer itself
+            vals.append(float(np.asarray(model.pdf(X[1])).reshape(-1)[0]))                 # a row view of it
+            vals.append(float(np.asarray(model.pdf(X[2:3])).reshape(-1)[0]))               # a one-row slice view
+            with_marg = model.n_dim == 2          # (a 3-D marginal_pdf is two nested nquad levels: too slow here)
+            mp = np.asarray(model.marginal_pdf(xm, 1), dtype=float).reshape(-1) if with_marg else []
+            cur = np.array(X, copy=True)
+            ref = ref_product_flushed(model, cur)
+            refs = list(ref) + [ref[1], ref[2]]
+            fv = [float(t) for t in np.asarray(fresh.pdf(cur.copy())).reshape(-1)]
+            fv += [fv[1], fv[2]]
+            pcf = Pieces(fresh)
+            fm = np.asarray(fresh.marginal_pdf(xm.copy(), 1), dtype=float).reshape(-1) if with_marg else []
+            ints = [dict(what="marginal_pdf", val=Qc(mp[k], 1e8, -BIG, BIG),
+                         ref=Qc(pcf.marginal(1, float(xm[k]), False), 1e8, -BIG, BIG), fresh=Qc(fm[k], 1e8, -BIG, BIG))
+                    for k in range(len(mp))]
+            if first_last:
+                model.pdf(X)            # the buffer is the last thing the objects have seen
+        return dict(kind="history", exc="", pdfrel=[rel15(a, float(b)) for a, b in zip(vals, refs)],
+                    freshrel=[rel15(a, float(b)) for a, b in zip(vals, fv)], ints=ints), ref
+    how = c["how"]
+    key = f"{how} order={c['order']} {model_key(c)}"
+    try:
+        r1, ref1 = phase(True)
+        out.append(dict(rec=r1, key=f"eval-history first-evaluation (buffer) {key}", nontrivial=True, case=c,
+                        history="first-evaluation"))
+        if how == "refill-all":
+            X[:] = B
+        elif how == "refill-cond-column":
+            X[:, 0] = B[:, 0]
+        else:
+            np.copyto(X, B)
+        xm[:] = [B[0][1], B[1][1]]
+        r2, ref2 = phase(False)
+        moved = bool(np.any(np.abs(ref2 - ref1) > 1e-3 * np.abs(ref1)))
+        out.append(dict(rec=r2, key=f"eval-history evaluation-after-{key}", nontrivial=moved, case=c,
+                        history="after-refill"))
+    except Machinery:
+        raise
+    except Exception as e:  # noqa
+        out.append(dict(rec=dict(kind="history", exc=f"{type(e).__name__}: {e}"[:200], pdfrel=[], freshrel=[], ints=[]),
+                        key=f"eval-history evaluation-after-{key}", nontrivial=False, case=c, history="after-refill"))
+    return out
 
 
 def eval_history_task(c):
@@ -580,7 +654,7 @@ def dim_alias_task(c):
 
 
 def run_task(c):
-    return {"dim_alias": dim_alias_task, "eval_history": eval_history_task, "pdf": pdf_task, "integral": integral_task, "icdf": icdf_task,
+    return {"refill_history": refill_history_task, "dim_alias": dim_alias_task, "eval_history": eval_history_task, "pdf": pdf_task, "integral": integral_task, "icdf": icdf_task,
             "icdf_history": icdf_history_task}[c["task"]](c)
 
 
@@ -665,6 +739,17 @@ def make_tasks(ctx, cfgs):
             slow.append(dict(b, task="dim_alias", k=kk, levels=[[0.5, 0.6, 0.4], [0.8, 0.3, 0.7], [0.3, 0.7, 0.6]][j],
                              whats=["marginal_pdf"] + (["marginal_icdf"] if kk == 1 else []),
                              out_of_range=(j == 0 and kk == 1)))
+    # the caller's points buffer refilled in place between two evaluations
+    c2d = [c_ for c_ in cond2 if c_["sh"][1] in (2, 3, 4)]
+    c3d = [c_ for c_ in by_n[3] if c_["cond"][1] == 0 and c_["cond"][2] in (0, 1) and 1 not in c_["sh"][1:]]
+    for k in range(ctx.pick(12, 48)):
+        cfg = (c2d if k % 3 else c3d)[(k * 5 + ctx.seed) % len(c2d if k % 3 else c3d)]
+        n_ = cfg["n_dim"]
+        la = [[0.5, 0.5, 0.4], [0.8, 0.3, 0.6], [0.2, 0.9, 0.5], [0.95, 0.6, 0.3]]
+        lb = [[0.9, 0.4, 0.6], [0.15, 0.5, 0.5], [0.6, 0.2, 0.7], [0.35, 0.8, 0.4]]
+        slow.append(dict(base(cfg, smooth=True), task="refill_history",
+                         how=["refill-all", "refill-cond-column", "refill-copyto"][k % 3], order="CF"[(k // 3) % 2],
+                         levels=[l_[:n_] for l_ in la], levels_b=[l_[:n_] for l_ in lb]))
     # evaluation histories on one model object
     hows = ["dep-parameters", "dep-fit", "set-attribute", "replace-entry", "dep-parameters", "replace-entry"]
     for k in range(ctx.pick(12, 48)):
@@ -810,6 +895,8 @@ def run(ctx):
                 "and 2 (thorough also two 3-D cdf / marginal_cdf calls); marginal_pdf / marginal_cdf / marginal_icdf with the variable "
                 "addressed from the end (dim = -k, python int and numpy integer; 2-D and 3-D) against the same call "
                 "with dim = n_dim-k and the reference, out-of-range dims must raise; "
+                "buffer histories (model.pdf / marginal_pdf with an ndarray, the SAME array object "
+                "refilled in place by x[:] = .., x[:, 0] = .. or np.copyto, C and F order, row views, evaluated again); "
                 "evaluation histories on one model object (pdf at single "
                 "points and arrays, marginal_pdf, cdf -> modify in place: dependence-function parameters dict, "
                 "DependenceFunction.fit, parameter attributes, replaced entry of model.distributions -> the same "
@@ -864,13 +951,18 @@ def run(ctx):
     if dropped == len(slow):
         raise Machinery(f"none of the {len(slow)} integral calls finished within the budget")
     missing = [k for k in ("pdf", "cdf", "marginal_pdf", "marginal_cdf", "mass", "icdf", "marginal_pdf/int",
-                           "icdf/after-parameter-change", "icdf/after-refit", "eval-history/after-modification",
+                           "icdf/after-parameter-change", "icdf/after-refit", "eval-history/after-modification", "eval-history/after-refill",
                            "alias/marginal_pdf", "alias/marginal_cdf", "alias/marginal_icdf",
                            "alias/marginal_pdf-out-of-range")
                if not kinds.get(k)]
     ctx.notes["kinds_without_a_record"] = missing
     nmoved = sum(1 for r, o in zip(recs, meta) if r["kind"] == "history" and o.get("history") == "after-modification"
                  and o["nontrivial"])
+    nrefill = sum(1 for r, o in zip(recs, meta) if r["kind"] == "history" and o.get("history") == "after-refill"
+                  and o["nontrivial"])
+    ctx.notes["buffer_refill_histories"] = nrefill
+    if dropped == 0 and nrefill < 6:
+        raise Machinery(f"vacuous: only {nrefill} in-place buffer refills changed the densities")
     ctx.notes["evaluation_histories_whose_modification_changed_the_density"] = nmoved
     if dropped == 0 and nmoved < 6:
         raise Machinery(f"vacuous: only {nmoved} evaluation histories changed the density at the repeated point")
